@@ -202,3 +202,7 @@ for _p, _pl in PLANS.items():
     _t["stages"].append("reach")
     _t["stage_plans"]["reach"] = {"shards": 4, "count": max(1, _q["count"] // 2), "budget_s": 8, "watchdog_s": 900,
                                   "anchors": _ANCHORS.get(_p, [])}
+
+# obligations of the complete sweeps (a sweep that claims completeness has its own enumeration checked): counter -> minimum
+PLANS["C16"]["quick"]["expect_min"] = {"c16.length-pairs-with-an-evaluated-case": 17 * 17}
+PLANS["C16"]["thorough"]["expect_min"] = {"c16.length-pairs-with-an-evaluated-case": 25 * 25}
